@@ -247,7 +247,12 @@ impl Chooser for Isolation {
             Some(a) => {
                 // a helper whose operation has returned is parked for good
                 a.retain(|t| *t == self.cthread || d.in_op[*t] || matches!(d.pending[*t], Some(Ann::OpEnd(_))));
-                let cand: Vec<usize> = d.enabled.iter().copied().filter(|t| a.contains(t)).collect();
+                let mut cand: Vec<usize> = d.enabled.iter().copied().filter(|t| a.contains(t)).collect();
+                if cand.is_empty() {
+                    // allowed threads that are waiting in a loop of plain loads may go round again; one that has done so 3000
+                    // times without anything changing is waiting for a frozen thread
+                    cand = d.waiting.iter().filter(|(t, f)| a.contains(t) && *f < 3000).map(|(t, _)| *t).collect();
+                }
                 if cand.is_empty() {
                     self.starved = true;
                     return HALT;
